@@ -546,9 +546,15 @@ def f_items(it):
     return f"{n} {it}".strip()
 
 
-def gen_painted(rng):
+# candidates for ONE grapheme cluster wider than 2 columns (Hangul jamo sequences, emoji + modifiers / ZWJ sequences): what
+# the implementation's tables make of them is read per case and counted (`wrap.truncate:cut-at-cluster-width=N`)
+WIDE_CLUSTERS = ["\u1100\uac00", "\u1100\u1100\u1161", "\u1100\uac00\u11a8", "\U0001f44d\U0001f3fd",
+                 "\U0001f468\u200d\U0001f469\u200d\U0001f467", "\U0001f926\U0001f3fc\u200d\u2642\ufe0f", "\u2764\u200d\U0001f525"]
+
+
+def gen_painted(rng, wide=False):
     pool1 = list("abcxyz ") + ["é"]
-    pool2 = list("日本語")
+    pool2 = list("日本語") + (WIDE_CLUSTERS * 2 if wide else [])
     sgr = ["\x1b[31m", "\x1b[0m", "\x1b[1;38;5;100m", "\x1b[7m", "\x1b]8;;http://x\x1b\\", "\x1b[0K"]
     s_ = ""
     for _ in range(rng.choice([1, 2, 3, 5, 8])):
@@ -600,10 +606,49 @@ def cut_class(items_field, dw, tail_w):
     return "plain"
 
 
+def cluster_widths(items_field):
+    """[[widths of the clusters of a text run] …] of an items field."""
+    toks = items_field.split()
+    runs, i = [], 0
+    while i < len(toks):
+        if toks[i] == "A":
+            i += 2
+        else:
+            k = int(toks[i + 1])
+            runs.append([int(toks[i + 3 + 2 * j]) for j in range(k)])
+            i += 2 + 2 * k
+    return runs
+
+
+def cut_width(items_field, dw, tail_w):
+    """Width of the first cluster that does not fit (None: everything fits), as `truncate_str_impl` walks."""
+    used = min(tail_w, dw)
+    for run in cluster_widths(items_field):
+        for w in run:
+            if used + w > dw:
+                return w
+            used += w
+    return None
+
+
+def wide_offsets(items_field):
+    """(columns in front, width) of every cluster wider than 2 columns."""
+    out, off = [], 0
+    for run in cluster_widths(items_field):
+        for w in run:
+            if w > 2:
+                out.append((off, w))
+            off += w
+    return out
+
+
 def part_truncate(ctx, rep, hook, mdl, seg):
     rng = ctx.rng
     tails = ["", "→", "\x1b[7m→\x1b[0m", "..", "日", "…"]
-    strings = [gen_painted(rng) for _ in range(ctx.n(600, 20000))]
+    n = ctx.n(600, 20000)
+    # a quarter of the strings contain clusters wider than 2 columns; most of those are cut inside one of them (the
+    # `width_of_grapheme > 2` arm of `truncate_str_impl`)
+    strings = [gen_painted(rng, wide=(k % 4 == 0)) for k in range(n)]
     its = items_of(hook, strings + tails)
     tail_items = dict(zip(tails, its[len(strings):]))
     reqs, cases = [], []
@@ -612,6 +657,16 @@ def part_truncate(ctx, rep, hook, mdl, seg):
         dw = rng.choice([0, 1, 2, max(w - 1, 0), max(w - 2, 0), w, w + 1, max(w // 2, 0), 3, 5])
         fill = 1 if rng.random() < 0.8 else 0
         tail = rng.choice(tails) if fill else ""
+        wo = wide_offsets(it)
+        if wo and rng.random() < 0.8:
+            off, cw = rng.choice(wo)
+            tw_ = vis_width(seg, tail_items[tail])
+            dw = off + tw_ + rng.randrange(cw)
+        cwid = cut_width(it, dw, vis_width(seg, tail_items[tail]))
+        if w > dw and cwid is not None:
+            rep.count("wrap.truncate:cut-at-cluster-width=%s" % (cwid if cwid < 5 else "5+"))
+            if cwid > 2:
+                rep.count("wrap.truncate:wide-cluster-at-cut:fill=%d" % fill)
         reqs.append(f"wrap.truncate {dw} {fill} {f_items(it)} {f_items(tail_items[tail])}")
         cases.append(dict(op="wrap.truncate", s=s_, dw=dw, fill=fill, tail=tail, width=w,
                           cls=cut_class(it, dw, vis_width(seg, tail_items[tail]))))
@@ -620,6 +675,9 @@ def part_truncate(ctx, rep, hook, mdl, seg):
         if rng.random() < 0.5:
             side = rng.choice("lr")
             tl = "\x1b[7m→\x1b[0m"
+            cwid = cut_width(it, dw, 1)
+            if w > dw and cwid is not None and cwid > 2:
+                rep.count("wrap.pad_panel:wide-cluster-at-cut")
             reqs.append(f"wrap.pad_panel {side} {dw} {f_items(it)} {f_items(tail_items[tl])}")
             cases.append(dict(op="wrap.pad_panel", s=s_, dw=dw, side=side, tail=tl, width=w,
                               cls=cut_class(it, dw, 1)))
